@@ -600,7 +600,11 @@ class Gen(object):
 
     # -- root options -----------------------------------------------------------------------------
     CREDITS = [['const', [0.5]], ['const', [1]], ['const', [0]], ['const', [0.75]], ['const', [0.3333]], ['const', [0.25]],
-               ['lin', [1, 4, 0.2]], ['lin', [2, 3, 0.5]], ['geo', [0.5]], ['geo', [0.75]], ['rec', []], ['const', [1.0]]]
+               ['lin', [1, 4, 0.2]], ['lin', [2, 3, 0.5]], ['geo', [0.5]], ['geo', [0.75]], ['rec', []], ['const', [1.0]],
+               # very small maximum credits: scaled grades next to 0 (and author schedules below the 4-decimal resolution)
+               ['const', [0.0001]], ['const', [0.0002]], ['const', [0.001]], ['const', [0.00001]], ['const', [0.0004]],
+               ['geo', [0.1]], ['geo', [0.75]], ['lin', [1, 3, 0.0001]], ['lin', [1, 2, 0.001]], ['rec', []]]
+    ATTEMPTS = [None, 0, -2, 1, 1, 2, 2, 3, 4, 5, 5, 9, 12, 30, 33, 35, 60, 200]
 
     def root_options(self):
         r = self.r
@@ -612,7 +616,7 @@ class Gen(object):
             extra['attempt_based_credit'] = {'credit': r.choice(self.CREDITS)}
             if r.random() < 0.3:
                 extra['attempt_based_credit_msg'] = False
-            attempt = r.choice([None, 0, -2, 1, 1, 2, 2, 3, 4, 5, 9])
+            attempt = r.choice(self.ATTEMPTS)
         elif r.random() < 0.2:
             attempt = r.choice([1, 2, 7])
         return extra, attempt
